@@ -129,6 +129,17 @@ theorem downstream_invalid_code {u : Int} (hu : validCell g.nrows g.ncols u = tr
   intro j _ hcj
   exact hf (List.mem_of_getElem? hcj)
 
+/-- **the three cases are all there is**: whatever integer a cell holds, it is the sink code, one of the
+eight ESRI codes, or not in the table — so `downstream_sink`, `downstream_esri`, `downstream_invalid_code`
+together give the downstream cell of every valid cell of every grid -/
+theorem downstream_cases_complete (u : Int) :
+    g.fd u = 0 ∨ (∃ m, m < 8 ∧ g.fd u = (2 : Int) ^ m) ∨ g.fd u ∉ codes := by
+  by_cases h : g.fd u ∈ codes
+  · rcases codes_are_esri_or_zero _ h with h0 | hm
+    · exact Or.inl h0
+    · exact Or.inr (Or.inl hm)
+  · exact Or.inr (Or.inr h)
+
 /-- the reply is always `-2`, `-1` or a valid cell; `-2` only for a sink -/
 theorem downstream_range {u d : Int} (h : downstream codes g u = .ok d) :
     (d = -2 ∧ g.fd u = 0) ∨ (d = -1 ∧ g.fd u ≠ 0) ∨ (validCell g.nrows g.ncols d = true ∧ g.fd u ≠ 0) := by
@@ -342,6 +353,87 @@ theorem delineate_outcomes (o : Int) (inlets : List Int) (nval : Int) :
     · rw [e]; rcases he with rfl | rfl | rfl <;> simp
     · rw [e]; rcases he with rfl | rfl | rfl <;> simp
 
+/-- **the Python wrapper returns the kernel's area**: keeping the entries `>= 0` of the work array
+(initialised with `-1`) gives back exactly the cells the kernel stored, and a kernel error is passed on -/
+theorem wrapper_area_eq (hc : 0 < g.ncols) (o : Int) (inlets : List Int) (nval : Int) :
+    wrapperArea codes g o inlets nval = delineateArea codes g o inlets nval := by
+  unfold wrapperArea
+  cases h : delineateArea codes g o inlets nval with
+  | error e => rfl
+  | ok A =>
+    simp only []
+    rw [keepCells_areaBuffer]
+    intro c hcA
+    exact (validCell_iff.1 (delineate_cells_valid hc h c hcA)).1
+
+/-! ### 2b. histories on one `Catchment` object: every answer is about the current state only
+
+`histRun codes s ops` (`Model/C06.lean`) runs a list of calls — `delineate_area`, `compute_flowpathlengths`,
+in-place edits / re-assignment of `catchment.flowdir.data` — on one object; `gridAfter g ops` is the
+constructor's grid with the edits applied. The correspondence runs such histories on the real object. -/
+
+/-- **a delineation after any history** answers for the grid as it is now and for the arguments of this call:
+nothing of earlier outlets, inlets, areas or tables enters (so `delineate_ok_iff` etc. apply to it with
+`gridAfter s.grid ops` as the grid) -/
+theorem history_delineate (hc : 0 < g.ncols) (ops : List HistOp) (outlet₀ : Option Int)
+    (area₀ : Option (List Int)) (o : Int) (inlets : List Int) (nval : Int) :
+    (histStep codes (histRun codes { grid := g, outlet := outlet₀, area := area₀ } ops).1
+        (.delineate o inlets nval)).2 =
+      .area (delineateArea codes (gridAfter g ops) o inlets nval) := by
+  have hg := histRun_grid (codes := codes) ops { grid := g, outlet := outlet₀, area := area₀ }
+  have hc' : 0 < (gridAfter g ops).ncols := by rw [(gridAfter_shape ops g).2]; exact hc
+  have hw := wrapper_area_eq (g := gridAfter g ops) hc' o inlets nval
+  simp only [histStep, hg]
+  rw [hw]
+  cases delineateArea codes (gridAfter g ops) o inlets nval <;> rfl
+
+/-- **flow paths after any history**: computed right after a successful delineation they are the table of
+that area, that outlet and the current grid (one row per cell of the area, in its order) — never a table
+left over from an earlier delineation, whatever its size -/
+theorem history_flowpaths (hc : 0 < g.ncols) (ops : List HistOp) (outlet₀ : Option Int)
+    (area₀ : Option (List Int)) {o : Int} {inlets A : List Int} {nval : Int}
+    (h : delineateArea codes (gridAfter g ops) o inlets nval = .ok A) :
+    (histRun codes { grid := g, outlet := outlet₀, area := area₀ }
+        (ops ++ [.delineate o inlets nval, .flowpaths])).2.getLast? =
+      some (.table (.ok (A.map fun c => (c, flowPath codes (gridAfter g ops) o A.length c)))) := by
+  have hc' : 0 < (gridAfter g ops).ncols := by rw [(gridAfter_shape ops g).2]; exact hc
+  have hw := wrapper_area_eq (g := gridAfter g ops) hc' o inlets nval
+  rw [h] at hw
+  have key : ∀ (ops : List HistOp) (s : CatchState),
+      wrapperArea codes (gridAfter s.grid ops) o inlets nval = .ok A →
+      (histRun codes s (ops ++ [.delineate o inlets nval, .flowpaths])).2.getLast? =
+        some (.table (.ok (A.map fun c => (c, flowPath codes (gridAfter s.grid ops) o A.length c)))) := by
+    intro ops
+    induction ops with
+    | nil =>
+      intro s hw
+      simp only [List.nil_append, histRun, histStep, gridAfter] at hw ⊢
+      rw [hw]
+      simp
+    | cons op ops ih =>
+      intro s hw
+      have hgrid : gridAfter s.grid (op :: ops) = gridAfter (histStep codes s op).1.grid ops := by
+        cases op with
+        | delineate o' inl' nval' => simp only [histStep, gridAfter]; split <;> rfl
+        | flowpaths => simp only [histStep, gridAfter]; split <;> rfl
+        | setCell c v => rfl
+        | setGrid fd => rfl
+      rw [hgrid] at hw ⊢
+      have := ih (histStep codes s op).1 hw
+      simp only [List.cons_append, histRun]
+      rw [List.getLast?_cons_of_ne_nil] <;> [exact this; skip]
+      intro hnil
+      rw [hnil] at this
+      simp at this
+  exact key ops { grid := g, outlet := outlet₀, area := area₀ } hw
+
+/-- after a delineation that failed (cycle, buffer too small, bad argument) the object holds no area:
+`compute_flowpathlengths` raises instead of answering from an earlier one -/
+theorem history_no_stale_area (s : CatchState) {o : Int} {inlets : List Int} {nval : Int} {e : Err}
+    (h : wrapperArea codes s.grid o inlets nval = .error e) :
+    (histStep codes (histStep codes s (.delineate o inlets nval)).1 .flowpaths).2 = .table (.error .noArea) := by
+  simp only [histStep, h]
+
 /-! ### 3. the hole-filled area contains the area -/
 
 /-- **filled ⊇ area** for any hole-filling routine that keeps the cells of the mask it is given (the only
@@ -457,6 +549,35 @@ theorem river_cells_are_chain (n : Nat) (c : Int) :
       downstreamCell codes g (chainCell codes g ((chainCells codes g n c).length - 1) c) < 0) :=
   chainCells_spec n c
 
+/-- the displacement columns of the river table: `(0, 0)` in the first row (for the call made by
+`delineate_river`), then the column / row change of the step between consecutive river cells -/
+theorem river_displacements {start nval : Int} {rows : List (RiverRow α)}
+    (h : delineateRiver codes g start nval = .ok rows) (hn : rows ≠ []) :
+    rows.map (fun r => (r.dx, r.dy)) =
+      (0, 0) :: List.zipWith (fun a b => (colOf g.ncols a - colOf g.ncols b, rowOf g.ncols a - rowOf g.ncols b))
+        (rows.map (·.cell)) (rows.map (·.cell)).tail := by
+  unfold delineateRiver at h
+  split at h
+  · cases h
+    have := river_disp (α := α) (codes := codes) (g := g) nval.toNat start 0 0 0
+    by_cases h0 : nval.toNat = 0
+    · rw [h0] at hn; exact absurd rfl hn
+    · rw [if_neg h0] at this; exact this
+  · cases h
+
+/-- **bounded results, cycles or not**: a river has at most `nval` rows and a flow path adds up at most
+`nval` steps, on every grid — with totality of the model this is the "never a hang" clause for the two
+walks (`delineate_cycle_error` is the one for the area) -/
+theorem walks_bounded (outlet : Int) (n : Nat) (start nval : Int) {rows : List (RiverRow α)}
+    (h : delineateRiver codes g start nval = .ok rows) :
+    rows.length ≤ nval.toNat ∧ (flowPath codes g outlet n start).2.length ≤ n := by
+  constructor
+  · unfold delineateRiver at h
+    split at h
+    · cases h; exact riverLoop_length_le _ _ _ _ _
+    · cases h
+  · exact flowPathWith_bound _ _ _ _
+
 /-- a start cell off the grid is rejected -/
 theorem river_guard (start nval : Int) (hv : validCell g.nrows g.ncols start = false) :
     (delineateRiver codes g start nval : Except Err (List (RiverRow α))) = .error .badCell := by
@@ -518,5 +639,15 @@ example : flowPathWith codes exGrid 2 (isDiagPinned 2) 2 1 = (2, [false]) := by 
 example : Reaches codes exCycle [] 2 0 0 := by unfold Reaches; decide
 example : delineateArea codes exCycle 0 [] 7 = .error .areaFull := by decide
 example : chainCells codes exGrid 5 1 = [1, 2] ∧ chainSteps codes exGrid (isDiag 2) 1 1 = [true] := by decide
+
+/-- a history with two delineations of equal size on one object, an edit in between -/
+example : ((histRun codes (CatchState.init exGrid)
+      [.delineate 2 [] 10, .flowpaths, .setCell 0 2, .delineate 3 [] 10, .flowpaths]).2.map fun
+        | .area (.ok a) => a
+        | .table (.ok t) => t.map (·.1)
+        | _ => []) = [[1, 2], [1, 2], [], [0, 3], [0, 3]] := by decide
+example : wrapperArea codes exGrid 2 [] 10 = .ok [1, 2] ∧ wrapperArea codes exCycle 0 [] 7 = .error .areaFull := by
+  decide
+example : g.fd = (fun _ => 255) → g.fd 0 ∉ codes := by intro h; rw [h]; decide
 
 end HydroVerif.C06
